@@ -484,16 +484,21 @@ def gen_cases(ctx):
     """[(class, text)]"""
     rng = ctx.rng
     cases = [("corpus", t) for t in CORPUS]
-    n_acc = ctx.budget(700, 40000)
+    # every escape form on its own, followed by each of a few characters, alone and split over two literals
+    for e in ESCAPES + BAD_ESCAPES:
+        for f in (b"", b"0", b"7", b"8", b"a", b"g", b"+"):
+            cases.append(("escape-grid", b"import \"" + e + f + b"\";"))
+        cases.append(("escape-grid", b"import 'p" + e + b"' \"" + e + b"q\";"))
+    n_acc = ctx.budget(600, 20000)
     for i in range(n_acc):
         cases.append(("generated", gen_accepted_text(rng, calm=(i % 5 == 0))))
     # generated files with one malformed escape in an import path: the full parser rejects, the scanner must survive
-    for i in range(ctx.budget(100, 4000)):
+    for i in range(ctx.budget(80, 2000)):
         cases.append(("bad-escape", join_tokens(rng, gen_file_tokens(rng, bad_escape=True), calm=(i % 2 == 0))))
     td = testdata_texts()
     for t in td:
         cases.append(("testdata", t))
-    for i in range(ctx.budget(300, 15000)):
+    for i in range(ctx.budget(250, 8000)):
         if td and rng.chance(1, 2):
             base = rng.choice(td)
             if len(base) > 1500:            # a window of a big file, cut at line starts
@@ -512,7 +517,8 @@ def gen_cases(ctx):
 def run(ctx):
     rng = ctx.rng
     cases = gen_cases(ctx)
-    ctx.rule = ("source texts: hand-picked corpus; generated files (syntax/edition, imports with public/weak/option and 1-4 adjacent "
+    ctx.rule = ("source texts: hand-picked corpus; every escape form (valid and malformed) alone in an import path followed by each of 7 "
+                "characters and split over two adjacent literals; generated files (syntax/edition, imports with public/weak/option and 1-4 adjacent "
                 "literals containing escapes, raw UTF-8 and invalid bytes, package with keyword components, options with message "
                 "literals using {} and <>, messages, enums, services, extend blocks, fields and values named import/package) laid "
                 "out with random white space and comments between all tokens; the same with one malformed escape; "
@@ -522,6 +528,11 @@ def run(ctx):
     outs = ctx.impl("fastscan", ins)
     terms, meta = [], []
     n_accepted = n_rejected = 0
+    found = []        # (key, what, replay): emitted smallest source first, so that the replay of a key is its smallest failing input
+
+    def violation(key, what, replay):
+        found.append((len(replay["source_hex"]), len(found), key, what, replay))
+
     for (klass, t), i, o in zip(cases, ins, outs):
         s = o.get("scan", {})
         p = o.get("parse", {})
@@ -530,8 +541,8 @@ def run(ctx):
         if "crash" in o or "panic" in s or "hang" in s or "panic" in tk or "hang" in tk:
             ctx.count((klass, t), True, "panic")
             ctx.corr_break("fastscan.Scan", replay, o)
-            ctx.violation("fastscan-panic", "fastscan.Scan (or its lexer) panicked, hung or crashed the harness",
-                          dict(replay, observed=o))
+            violation("fastscan-panic", "fastscan.Scan (or its lexer) panicked, hung or crashed the harness",
+                      dict(replay, observed=o))
             continue
         if "panic" in p or "hang" in p:
             # the full parser is not the subject here: no oracle for this text
@@ -542,20 +553,20 @@ def run(ctx):
             ctx.count((klass, t), (b"import" in t or b"package" in t), "accepted:" + klass)
             # ---- direct oracle: the property on the implementation
             if s["errs"] or s.get("io"):
-                ctx.violation("scan-error-on-accepted-file", "the full parser accepts the file, fastscan.Scan returns an error",
-                              dict(replay, scan=s, parse=p))
+                violation("scan-error-on-accepted-file", "the full parser accepts the file, fastscan.Scan returns an error",
+                          dict(replay, scan=s, parse=p))
             if s["imports"] != p["imports"]:
                 key = "imports-differ"
                 if [x["path"] for x in s["imports"]] == [x["path"] for x in p["imports"]]:
                     key = "import-flags-differ"
                 elif len(s["imports"]) == len(p["imports"]):
                     key = "import-path-differs"
-                ctx.violation(key, "fastscan.Scan and the full parser's AST disagree on the imports", dict(replay, scan=s, parse=p))
+                violation(key, "fastscan.Scan and the full parser's AST disagree on the imports", dict(replay, scan=s, parse=p))
             if len(p["pkgs"]) <= 1:
                 want = p["pkgs"][0] if p["pkgs"] else ""
                 if s["pkg"] != want:
-                    ctx.violation("package-differs", "fastscan.Scan and the full parser's AST disagree on the package name",
-                                  dict(replay, scan=s, parse=p))
+                    violation("package-differs", "fastscan.Scan and the full parser's AST disagree on the package name",
+                              dict(replay, scan=s, parse=p))
             else:
                 ctx.hist["accepted-with-several-package-statements(package not judged)"] = \
                     ctx.hist.get("accepted-with-several-package-statements(package not judged)", 0) + 1
@@ -564,6 +575,8 @@ def run(ctx):
             ctx.count((klass, t), (b"import" in t or b"package" in t), "rejected-by-full-parser:" + klass)
         terms.append(coq_case(t, o))
         meta.append((replay, o))
+    for _, _, key, what, replay in sorted(found, key=lambda x: (x[0], x[1])):
+        ctx.violation(key, what, replay)
     ctx.extra["accepted_by_full_parser"] = n_accepted
     ctx.extra["rejected_by_full_parser(not judged, scanner must not panic)"] = n_rejected
     for k in (1, len(CORPUS) + 3, len(CORPUS) + 4):
